@@ -682,6 +682,11 @@ class EipEndpoint:
         if cmd not in (0x6F, 0x70):
             self.reply(build_encap(cmd, session, ENC_BAD_CMD, ctx8))
             return
+        if session == 0 and not getattr(self.conn, "send_faulted", False):
+            # handle 0 is what the driver holds before any registration: a session-bound command carrying it was
+            # sent without a session, whatever faults may have confused driver and target about later replies
+            world.hits.hit("C10", "life.I1", f"command 0x{cmd:02x} sent with session handle 0 (no session was ever "
+                           f"registered from the driver's point of view)", invariant="I1", what="session_zero")
         if self.session is None or session != self.session:
             world.hits.hit("C10", "life.I1", f"command 0x{cmd:02x} sent without a registered session "
                            f"(handle 0x{session:08x})", invariant="I1", what="no_session")
